@@ -1,21 +1,380 @@
 package main
 
-// Observation of the module's own read paths at a reached state (filled in by obsrun.go)
-type Observation struct {
-	Lists   []ListObs  `json:"lists,omitempty"`
-	Queries []QueryObs `json:"queries,omitempty"`
-}
+// Observation of the module's own read paths at a reached state (C17, listing part of C15):
+// every gRPC query method and every legacy querier route is called with arguments drawn from
+// the existing and non-existing services, owners, providers, contexts, batches and requests
+// of that state.  Results are summarised as digests of the canonical protobuf bytes of the
+// records returned; the ground truth (`T*` tables) is computed from the raw store scan, not
+// through the query path.  TLC compares the two (ServiceTrace.tla, QueriesOK).
 
-type ListObs struct {
+import (
+	"bytes"
+	"crypto/sha256"
+	"encoding/hex"
+	"sort"
+
+	gogotypes "github.com/gogo/protobuf/types"
+	abci "github.com/tendermint/tendermint/abci/types"
+
+	"github.com/cosmos/cosmos-sdk/codec"
+	sdk "github.com/cosmos/cosmos-sdk/types"
+
+	"github.com/irismod/service/keeper"
+	"github.com/irismod/service/types"
+)
+
+type QArg struct {
 	Svc   string   `json:"svc"`
-	Owner string   `json:"owner"` // "" = all owners
-	Got   []string `json:"got"`   // providers of the bindings returned
+	Prov  string   `json:"prov"`
+	Owner string   `json:"owner"`
+	ID    int      `json:"id"`
+	Batch int64    `json:"batch"`
+	Rid   [4]int64 `json:"rid"`
+	Name  string   `json:"name"`
 }
 
 type QueryObs struct {
-	Q    string `json:"q"`
-	Arg  string `json:"arg"`
-	Grpc string `json:"grpc"`
-	Leg  string `json:"leg"`
-	Want string `json:"want"`
+	Q    string   `json:"q"`
+	Arg  QArg     `json:"arg"`
+	Grpc []string `json:"grpc"` // digests of the records returned; ["ERR"] for an error
+	Leg  []string `json:"leg"`
+}
+
+type KeyDg struct {
+	Svc  string   `json:"svc"`
+	Prov string   `json:"prov"`
+	ID   int      `json:"id"`
+	Rid  [4]int64 `json:"rid"`
+	Dg   string   `json:"dg"`
+}
+
+type Observation struct {
+	Queries []QueryObs `json:"queries"`
+	TDefs   []KeyDg    `json:"tdefs"`
+	TBind   []KeyDg    `json:"tbind"`
+	TCtx    []KeyDg    `json:"tctx"`
+	TReq    []KeyDg    `json:"treq"`
+	TResp   []KeyDg    `json:"tresp"`
+	TParams string     `json:"tparams"`
+	TSchema []KeyDg    `json:"tschema"` // Svc = schema name
+	Empty   string     `json:"empty"`
+}
+
+// feeStr renders earned fees as the decimal amount of the base denomination (anything else verbatim)
+func feeStr(f sdk.Coins) string {
+	if len(f) == 0 {
+		return "0"
+	}
+	if len(f) == 1 && f[0].Denom == Denom {
+		return f[0].Amount.String()
+	}
+	return f.String()
+}
+
+func dg(b []byte) string {
+	h := sha256.Sum256(b)
+	return hex.EncodeToString(h[:6])
+}
+
+func (c *Chain) dgOf(m codec.ProtoMarshaler) string {
+	return dg(c.App.AppCodec().MustMarshalBinaryBare(m))
+}
+
+func errOr(err error, f func() []string) []string {
+	if err != nil {
+		return []string{"ERR"}
+	}
+	return f()
+}
+
+// Observe queries the state reached; the chain is not modified
+func (c *Chain) Observe() *Observation {
+	cdc := c.App.AppCodec()
+	amino := c.App.LegacyAmino()
+	ctx, _ := c.Ctx.CacheContext()
+	o := &Observation{Queries: []QueryObs{}, TDefs: []KeyDg{}, TBind: []KeyDg{}, TCtx: []KeyDg{}, TReq: []KeyDg{},
+		TResp: []KeyDg{}, TSchema: []KeyDg{}, Empty: dg(nil)}
+	st := c.Project()
+
+	// ---- ground truth from the raw store
+	store := ctx.KVStore(c.App.GetKey(types.StoreKey))
+	rawCtx := map[string]types.RequestContext{}
+	it := store.Iterator(nil, nil)
+	type rawReq struct {
+		id  []byte
+		val types.CompactRequest
+	}
+	var reqs []rawReq
+	for ; it.Valid(); it.Next() {
+		key, val := append([]byte{}, it.Key()...), append([]byte{}, it.Value()...)
+		switch key[0] {
+		case 0x01:
+			o.TDefs = append(o.TDefs, KeyDg{Svc: string(key[1:]), Dg: dg(val)})
+		case 0x02:
+			parts := bytes.SplitN(key[1:], []byte{0}, 2)
+			if len(parts) == 2 {
+				a, _ := sdk.AccAddressFromBech32(string(parts[1]))
+				o.TBind = append(o.TBind, KeyDg{Svc: string(parts[0]), Prov: c.Name(a), Dg: dg(val)})
+			}
+		case 0x08:
+			var r types.RequestContext
+			cdc.MustUnmarshalBinaryBare(val, &r)
+			rawCtx[string(key[1:])] = r
+			o.TCtx = append(o.TCtx, KeyDg{ID: c.CtxIDs[string(key[1:])], Dg: dg(val)})
+		case 0x13:
+			var r types.CompactRequest
+			cdc.MustUnmarshalBinaryBare(val, &r)
+			reqs = append(reqs, rawReq{id: key[1:], val: r})
+		case 0x16:
+			var anom []string
+			o.TResp = append(o.TResp, KeyDg{Rid: c.ridOf(key[1:], "", &anom), Dg: dg(val)})
+		}
+	}
+	it.Close()
+	for _, r := range reqs {
+		// a request as the queries must reconstruct it: the compact record joined with its context
+		rc, ok := rawCtx[string(r.val.RequestContextId)]
+		if !ok {
+			continue
+		}
+		full := types.Request{Id: r.id, ServiceName: rc.ServiceName, Provider: r.val.Provider, Consumer: rc.Consumer,
+			Input: rc.Input, ServiceFee: r.val.ServiceFee, SuperMode: rc.SuperMode, RequestHeight: r.val.RequestHeight,
+			ExpirationHeight: r.val.ExpirationHeight, RequestContextId: r.val.RequestContextId,
+			RequestContextBatchCounter: r.val.RequestContextBatchCounter}
+		var anom []string
+		o.TReq = append(o.TReq, KeyDg{Rid: c.ridOf(r.id, "", &anom), Dg: c.dgOf(&full)})
+	}
+	arb := c.Params.RefundDelay / 2
+	params := types.NewParams(c.Params.MaxTimeout, c.Params.Multiple,
+		sdk.NewCoins(sdk.NewCoin(Denom, sdk.NewInt(c.Params.MinDeposit))), sdk.NewDecWithPrec(c.Params.Tax, 3),
+		sdk.NewDecWithPrec(c.Params.Slash, 3), secs(c.Params.RefundDelay-arb), secs(arb), 4000, Denom)
+	o.TParams = c.dgOf(&params)
+	o.TSchema = []KeyDg{{Svc: "pricing", Dg: dg([]byte(types.PricingSchema))}, {Svc: "result", Dg: dg([]byte(types.ResultSchema))},
+		{Svc: "PRICING", Dg: dg([]byte(types.PricingSchema))}}
+
+	// ---- the queries
+	gctx := sdk.WrapSDKContext(ctx)
+	legacy := keeper.NewQuerier(c.K, amino)
+	leg := func(route string, params interface{}, decode func(bz []byte) ([]string, error)) []string {
+		bz, err := legacy(ctx, []string{route}, abci.RequestQuery{Data: amino.MustMarshalJSON(params)})
+		if err != nil {
+			return []string{"ERR"}
+		}
+		r, err := decode(bz)
+		if err != nil {
+			return []string{"DECODE-ERR: " + err.Error()}
+		}
+		return r
+	}
+	add := func(q string, a QArg, g, l []string) {
+		if g == nil {
+			g = []string{}
+		}
+		if l == nil {
+			l = []string{}
+		}
+		o.Queries = append(o.Queries, QueryObs{Q: q, Arg: a, Grpc: g, Leg: l})
+	}
+
+	svcs := map[string]bool{"zz": true, "s": true, "s1": true, "s-1": true}
+	for _, d := range st.Defs {
+		svcs[d.Name] = true
+	}
+	var svcList []string
+	for s := range svcs {
+		svcList = append(svcList, s)
+	}
+	sort.Strings(svcList)
+	provs := []string{"p1", "p2", "p3", "w1"}
+	owners := []string{"", "o1", "o2", "c1"}
+
+	for _, s := range svcList {
+		res, err := c.K.Definition(gctx, &types.QueryDefinitionRequest{ServiceName: s})
+		add("definition", QArg{Svc: s},
+			errOr(err, func() []string { return []string{c.dgOf(res.ServiceDefinition)} }),
+			leg(types.QueryDefinition, types.QueryDefinitionParams{ServiceName: s}, func(bz []byte) ([]string, error) {
+				var d types.ServiceDefinition
+				err := amino.UnmarshalJSON(bz, &d)
+				return []string{c.dgOf(&d)}, err
+			}))
+		for _, p := range provs {
+			res, err := c.K.Binding(gctx, &types.QueryBindingRequest{ServiceName: s, Provider: c.A(p)})
+			add("binding", QArg{Svc: s, Prov: p},
+				errOr(err, func() []string { return []string{c.dgOf(res.ServiceBinding)} }),
+				leg(types.QueryBinding, types.QueryBindingParams{ServiceName: s, Provider: c.A(p)}, func(bz []byte) ([]string, error) {
+					var b types.ServiceBinding
+					err := amino.UnmarshalJSON(bz, &b)
+					return []string{c.dgOf(&b)}, err
+				}))
+			resR, err := c.K.Requests(gctx, &types.QueryRequestsRequest{ServiceName: s, Provider: c.A(p)})
+			add("requests", QArg{Svc: s, Prov: p},
+				errOr(err, func() []string {
+					r := []string{}
+					for _, x := range resR.Requests {
+						r = append(r, c.dgOf(x))
+					}
+					return r
+				}),
+				leg(types.QueryRequests, types.QueryRequestsParams{ServiceName: s, Provider: c.A(p)}, func(bz []byte) ([]string, error) {
+					var xs []types.Request
+					err := amino.UnmarshalJSON(bz, &xs)
+					r := []string{}
+					for i := range xs {
+						r = append(r, c.dgOf(&xs[i]))
+					}
+					return r, err
+				}))
+		}
+		for _, ow := range owners {
+			res, err := c.K.Bindings(gctx, &types.QueryBindingsRequest{ServiceName: s, Owner: c.A(ow)})
+			add("bindings", QArg{Svc: s, Owner: ow},
+				errOr(err, func() []string {
+					r := []string{}
+					for _, b := range res.ServiceBindings {
+						r = append(r, c.dgOf(b))
+					}
+					return r
+				}),
+				leg(types.QueryBindings, types.QueryBindingsParams{ServiceName: s, Owner: c.A(ow)}, func(bz []byte) ([]string, error) {
+					var bs []*types.ServiceBinding
+					err := amino.UnmarshalJSON(bz, &bs)
+					r := []string{}
+					for _, b := range bs {
+						r = append(r, c.dgOf(b))
+					}
+					return r, err
+				}))
+		}
+	}
+	for _, ow := range []string{"o1", "o2", "c1"} {
+		res, err := c.K.WithdrawAddress(gctx, &types.QueryWithdrawAddressRequest{Owner: c.A(ow)})
+		add("withdraw_address", QArg{Owner: ow},
+			errOr(err, func() []string { return []string{c.Name(res.WithdrawAddress)} }),
+			leg(types.QueryWithdrawAddress, types.QueryWithdrawAddressParams{Owner: c.A(ow)}, func(bz []byte) ([]string, error) {
+				var a sdk.AccAddress
+				err := amino.UnmarshalJSON(bz, &a)
+				return []string{c.Name(a)}, err
+			}))
+	}
+	for _, p := range provs {
+		res, err := c.K.EarnedFees(gctx, &types.QueryEarnedFeesRequest{Provider: c.A(p)})
+		add("fees", QArg{Prov: p},
+			errOr(err, func() []string { return []string{feeStr(res.Fees)} }),
+			leg(types.QueryEarnedFees, types.QueryEarnedFeesParams{Provider: c.A(p)}, func(bz []byte) ([]string, error) {
+				var f sdk.Coins
+				err := amino.UnmarshalJSON(bz, &f)
+				return []string{feeStr(f)}, err
+			}))
+	}
+	ids := []int{c.NCtx + 1}
+	for _, x := range st.Ctx {
+		ids = append(ids, x.ID)
+	}
+	for _, id := range ids {
+		idb := c.CtxID(id)
+		res, err := c.K.RequestContext(gctx, &types.QueryRequestContextRequest{RequestContextId: idb})
+		add("context", QArg{ID: id},
+			errOr(err, func() []string { return []string{c.dgOf(res.RequestContext)} }),
+			leg(types.QueryRequestContext, types.QueryRequestContextParams{RequestContextID: idb}, func(bz []byte) ([]string, error) {
+				var x types.RequestContext
+				err := amino.UnmarshalJSON(bz, &x)
+				return []string{c.dgOf(&x)}, err
+			}))
+		batch := int64(1)
+		for _, x := range st.Ctx {
+			if x.ID == id {
+				batch = x.Batch
+			}
+		}
+		for _, b := range []int64{batch - 1, batch, batch + 1} {
+			if b < 0 {
+				continue
+			}
+			res, err := c.K.RequestsByReqCtx(gctx, &types.QueryRequestsByReqCtxRequest{RequestContextId: idb, BatchCounter: uint64(b)})
+			add("requests_by_ctx", QArg{ID: id, Batch: b},
+				errOr(err, func() []string {
+					r := []string{}
+					for _, x := range res.Requests {
+						r = append(r, c.dgOf(x))
+					}
+					return r
+				}),
+				leg(types.QueryRequestsByReqCtx, types.QueryRequestsByReqCtxParams{RequestContextID: idb, BatchCounter: uint64(b)}, func(bz []byte) ([]string, error) {
+					var xs []types.Request
+					err := amino.UnmarshalJSON(bz, &xs)
+					r := []string{}
+					for i := range xs {
+						r = append(r, c.dgOf(&xs[i]))
+					}
+					return r, err
+				}))
+			res2, err := c.K.Responses(gctx, &types.QueryResponsesRequest{RequestContextId: idb, BatchCounter: uint64(b)})
+			add("responses", QArg{ID: id, Batch: b},
+				errOr(err, func() []string {
+					r := []string{}
+					for _, x := range res2.Responses {
+						r = append(r, c.dgOf(x))
+					}
+					return r
+				}),
+				leg(types.QueryResponses, types.QueryResponsesParams{RequestContextID: idb, BatchCounter: uint64(b)}, func(bz []byte) ([]string, error) {
+					var xs []types.Response
+					err := amino.UnmarshalJSON(bz, &xs)
+					r := []string{}
+					for i := range xs {
+						r = append(r, c.dgOf(&xs[i]))
+					}
+					return r, err
+				}))
+		}
+	}
+	rids := [][4]int64{{1, 1, 1, 7}, {int64(c.NCtx + 1), 1, 1, 0}}
+	for _, r := range st.Req {
+		rids = append(rids, r.Rid)
+	}
+	for _, r := range rids {
+		rb := c.ridBytes(r)
+		res, err := c.K.Request(gctx, &types.QueryRequestRequest{RequestId: rb})
+		add("request", QArg{Rid: r},
+			errOr(err, func() []string { return []string{c.dgOf(res.Request)} }),
+			leg(types.QueryRequest, types.QueryRequestParams{RequestID: rb}, func(bz []byte) ([]string, error) {
+				var x types.Request
+				err := amino.UnmarshalJSON(bz, &x)
+				return []string{c.dgOf(&x)}, err
+			}))
+		res2, err := c.K.Response(gctx, &types.QueryResponseRequest{RequestId: rb})
+		add("response", QArg{Rid: r},
+			errOr(err, func() []string { return []string{c.dgOf(res2.Response)} }),
+			leg(types.QueryResponse, types.QueryResponseParams{RequestID: rb}, func(bz []byte) ([]string, error) {
+				var x types.Response
+				err := amino.UnmarshalJSON(bz, &x)
+				return []string{c.dgOf(&x)}, err
+			}))
+	}
+	resP, err := c.K.Params(gctx, &types.QueryParamsRequest{})
+	add("params", QArg{},
+		errOr(err, func() []string { return []string{c.dgOf(&resP.Params)} }),
+		func() []string {
+			bz, err := legacy(ctx, []string{types.QueryParameters}, abci.RequestQuery{})
+			if err != nil {
+				return []string{"ERR"}
+			}
+			var p types.Params
+			if err := amino.UnmarshalJSON(bz, &p); err != nil {
+				return []string{"DECODE-ERR"}
+			}
+			return []string{c.dgOf(&p)}
+		}())
+	for _, n := range []string{"pricing", "result", "PRICING", "nothing"} {
+		res, err := c.K.Schema(gctx, &types.QuerySchemaRequest{SchemaName: n})
+		add("schema", QArg{Name: n},
+			errOr(err, func() []string { return []string{dg([]byte(res.Schema))} }),
+			leg(types.QuerySchema, types.QuerySchemaParams{SchemaName: n}, func(bz []byte) ([]string, error) {
+				var s string
+				err := amino.UnmarshalJSON(bz, &s)
+				return []string{dg([]byte(s))}, err
+			}))
+	}
+	_ = gogotypes.BytesValue{}
+	return o
 }
